@@ -388,6 +388,7 @@ impl Interp {
         let mut c04 = false;
         let mut c13 = false;
         let mut c06 = false;
+        let (mut c12, mut vis, mut c13g) = (false, false, false);
         let empty = json!({"tracks": [], "epochs": []});
         let mut before = &empty;
         for s in steps {
@@ -403,6 +404,17 @@ impl Interp {
             }
             if op == "batch" && jarr(o, "b").len() >= 2 {
                 c06 = true;
+            }
+            if let Some(nt) = s.get("nt") {
+                if jint(nt, "lost") > 0 {
+                    c12 = true;
+                }
+                if jint(nt, "vis") > 0 {
+                    vis = true;
+                }
+                if jint(nt, "evicts") > 0 || jint(nt, "refused") > 0 {
+                    c13g = true;
+                }
             }
             let lists: Vec<(&Value, Vec<Value>)> = match op {
                 "predict" => vec![(jget(s, "ret"), jarr(o, "dets").clone())],
@@ -431,7 +443,7 @@ impl Interp {
             }
             before = jget(s, "proj");
         }
-        for (k, v) in [("nt_C01", c01), ("nt_C03", c03), ("nt_C04", c04), ("nt_C13", c13), ("nt_C06", c06)] {
+        for (k, v) in [("nt_C01", c01), ("nt_C03", c03), ("nt_C04", c04), ("nt_C13", c13), ("nt_C06", c06), ("nt_C12", c12), ("vis_attach", vis), ("nt_C13g", c13g)] {
             if v {
                 rep.count(k, 1);
             }
